@@ -273,7 +273,8 @@ def build_signed(rng, kind, small):
     elif kind == "p2tr-key":
         priv = keys(1)[0]
         tx = finish(priv.point.p2tr_script())
-        ht = rng.choice([0, 0, 1, 3, 0x81])
+        # SIGHASH_SINGLE only where a matching output exists (without one BIP341 specifies failure, nothing to sign)
+        ht = rng.choice([0, 0, 1, 3, 0x81] if index < n_out else [0, 0, 1, 0x81, 2])
         meta["secrets"] = [priv.tweaked_key().secret]
         ok = tx.sign_p2tr_keypath(index, priv.tweaked_key(), hash_type=ht)
     elif kind == "p2tr-key-tree":
